@@ -84,6 +84,8 @@ pub(crate) fn run_scheduling_solver(
     let n_workers = workers.len();
 
     let mut solver = LpSolver::new(false);
+    #[cfg(it4innovations_hyperqueue_verif)]
+    crate::verif::sched_c15::begin();
 
     let mut placements: Map<(WorkerId, ResourceRqId, ResourceVariantId), Variable> = Map::new();
     let mut tasks_count_vars: Map<ResourceRqId, Vec<_>> = Map::new();
@@ -128,6 +130,12 @@ pub(crate) fn run_scheduling_solver(
                     set_placement_name(&mut solver, worker.id, batch.resource_rq_id, v_idx);
                     let v =
                         create_sn_var(&mut solver, rq, n_workers, w_idx, worker, &resource_sums);
+                    #[cfg(it4innovations_hyperqueue_verif)]
+                    crate::verif::sched_c15::name_last(crate::verif::sched_c15::VarKind::Placement {
+                        worker: worker.id.as_num(),
+                        rq: batch.resource_rq_id.as_num(),
+                        variant: v_idx.as_num() as u32,
+                    });
                     placements.insert((worker.id, batch.resource_rq_id, v_idx), v);
                     tasks_count_vars
                         .entry(batch.resource_rq_id)
@@ -159,6 +167,11 @@ pub(crate) fn run_scheduling_solver(
                 let weight = w_idx as f64 / (n_workers * 100) as f64;
                 solver.set_name(|| format!("R{}:{}", worker.id, batch.resource_rq_id));
                 let v = solver.add_bool_variable(weight);
+                #[cfg(it4innovations_hyperqueue_verif)]
+                crate::verif::sched_c15::name_last(crate::verif::sched_c15::VarKind::Reservation {
+                    worker: worker.id.as_num(),
+                    rq: batch.resource_rq_id.as_num(),
+                });
                 tasks_count_vars
                     .entry(batch.resource_rq_id)
                     .or_default()
@@ -238,6 +251,11 @@ pub(crate) fn run_scheduling_solver(
         // Create a new blocking variable
         solver.set_name(|| format!("B{}~{}", blocker_rq_id, size));
         let new_v = solver.add_bool_variable(0.0);
+        #[cfg(it4innovations_hyperqueue_verif)]
+        crate::verif::sched_c15::name_last(crate::verif::sched_c15::VarKind::Blocker {
+            rq: blocker_rq_id.as_num(),
+            size,
+        });
         solver.set_name(|| format!("blocker rq{blocker_rq_id} at size {size}"));
         let bound = size as f64;
         constraint_extra_var(
@@ -437,9 +455,13 @@ pub(crate) fn run_scheduling_solver(
     let mut result = SchedulingSolution::default();
     let Some((solution, is_optimal)) = solver.solve_bounded(scheduler_cache.config.mip_time_limit)
     else {
+        #[cfg(it4innovations_hyperqueue_verif)]
+        crate::verif::sched_c15::close_if_open();
         return result;
     };
     result.is_optimal = is_optimal;
+    #[cfg(all(it4innovations_hyperqueue_verif, feature = "highs"))]
+    crate::verif::sched_c15::end(Some((solution.columns(), is_optimal)));
 
     for batch in task_batches {
         let resource_rq_id = batch.resource_rq_id;
@@ -532,6 +554,10 @@ fn add_min_utilization(
     solver.set_name(|| format!("mu_{}", worker.id));
     let v = solver.add_bool_variable(0.0);
     worker_res_constraint.push((v, -min_cpus));
+    #[cfg(it4innovations_hyperqueue_verif)]
+    crate::verif::sched_c15::name_last(crate::verif::sched_c15::VarKind::MinUtilization {
+        worker: worker.id.as_num(),
+    });
     solver.set_name(|| format!("w{} min utilization (lower bound)", worker.id));
     solver.add_constraint(
         ConstraintType::Min,
